@@ -93,6 +93,9 @@ func (l *c16Log) served(err error) {
 func (l *c16Log) allClosed(n int) func() bool { return func() bool { return l.closersDone >= n } }
 
 //go:norace
+func (l *c16Log) allServed(n int) func() bool { return func() bool { return l.serves >= n } }
+
+//go:norace
 func (l *c16Log) snapshot() ([]span, []int, []string) {
 	var sp []span
 	for _, s := range l.spans {
@@ -194,7 +197,9 @@ type c16Spec struct {
 	closeBeforeServe bool
 	// listeners: number of listeners served by the one Server (0 = 1); connection i arrives on listener i % listeners
 	listeners int
-	desc      string
+	// poolFIFO: sync.Pool shims hand out the oldest item instead of the newest one
+	poolFIFO bool
+	desc     string
 }
 
 func c16Specs() []c16Spec {
@@ -227,6 +232,8 @@ func c16Scenario(spec c16Spec) *Scenario {
 			log := &c16Log{}
 			var conns []*memnet.SConn
 			vsync.WaitGroupMisuse = 0
+			vsync.PoolFIFO = spec.poolFIFO
+			vsync.ResetPools()
 			body := func() {
 				memnet.Point = vsched.Point
 				parse := c16Parse(log)
@@ -279,6 +286,9 @@ func c16Scenario(spec c16Spec) *Scenario {
 					srv.Close()
 					log.closeReturned()
 				}
+				// "Close stops the accept loop so that Serve returns": with the clients still connected (idle, or in
+				// the middle of a message) every Serve call must return now, not only once they have gone away
+				vsched.Cond("serve-returns-while-clients-stay-connected", uintptr(unsafe.Pointer(log)), log.allServed(max(spec.listeners, 1)))
 				// let every remaining thread finish: the clients go away
 				for _, sc := range conns {
 					sc.EOF()
